@@ -72,6 +72,8 @@ def cases(tier):
         yield ("clean-api", tier)
     for mi in range(len(c11.MODELS)):
         yield ("builtin", mi, tier)
+    for mode in ("api", "src"):
+        yield ("edits", mode, tier)
 
 
 # ---------------------------------------------------------------------------------------------
@@ -237,6 +239,8 @@ def _what(tag):
         return k.split(":")[1]
     if k.startswith("pair"):
         return "value-combination"
+    if k.startswith("edit-history"):
+        return "after-edit-history"
     return k.split(":")[0]
 
 
@@ -363,6 +367,49 @@ def run(case):
                 yield "refs:order", [("zz", {"N": 1}), ("B", {"R": ("ref", "zz")}), ("a1", {"R": ("ref", "B")}), ("_x", {"LR": [("ref", "a1")]})]
                 yield "refs:empty-list", [("a", {"LR": []})]
             n, sample = _run_specs(specs(), mode, work, viols, outcomes)
+        elif case[0] == "edits":
+            # BFS over edit histories of a program (documented API): to_string / run / del commands[x] / add_command, depth 3; in every
+            # state the serialised text must load back to the program AS IT IS NOW
+            mode = case[1]
+            base_spec = [("a", {"N": 1, "S": "x y"}), ("b", {"R": ("ref", "a"), "LN": [1, 2.5]}), ("c", {"LR": [("ref", "a"), ("ref", "b")], "B": True})]
+            events = [("str",), ("run",), ("del", "c"), ("del", "b"), ("add", "d", {"R": "a", "S": "new"}), ("add", "e", {"LS": ["q"]}), ("readd", "c", {"N": 7})]
+            n = 0
+            sample = None
+            seen_states = set()
+            frontier = [[]]
+            for depth in range(3):
+                nxt = []
+                for hist in frontier:
+                    for ev in events:
+                        h = hist + [ev]
+                        p, _ = _build(work, base_spec, mode)
+                        cls = p.find_command_class("Echo")
+                        ok = True
+                        try:
+                            for e in h:
+                                if e[0] == "str":
+                                    p.to_string()
+                                elif e[0] == "run":
+                                    p.run()
+                                elif e[0] == "del":
+                                    del p.commands[e[1]]
+                                elif e[0] == "add":
+                                    p.add_command(cls, e[1], dict(e[2]))
+                                elif e[0] == "readd":
+                                    if e[1] in p.commands:
+                                        del p.commands[e[1]]
+                                    p.add_command(cls, e[1], dict(e[2]))
+                        except Exception:
+                            ok = False  # e.g. deleting twice, duplicate add: not a state of interest
+                        if not ok:
+                            continue
+                        n += 1
+                        tag = {"kind": "edit-history", "mode": mode, "history": [list(map(str, e)) for e in h]}
+                        oc = roundtrip(p, viols, tag, work=work, run=False)
+                        outcomes["edits:" + oc.split(" ")[0]] = outcomes.get("edits:" + oc.split(" ")[0], 0) + 1
+                        sample = tag
+                        nxt.append(h)
+                frontier = nxt
         elif case[0] == "clean-api":
             from mpilot.program import Program
 
